@@ -12,6 +12,19 @@ import (
 
 // Z renders an integer as a Coq Z literal (in Z_scope).
 func Z(z *big.Int) string {
+	if z.BitLen() > 192 {
+		// limbs, most significant first: (zl neg [l_k; ...; l_0])
+		words := new(big.Int).Abs(z).Bits()
+		parts := make([]string, len(words))
+		for i, w := range words {
+			parts[len(words)-1-i] = fmt.Sprint(uint64(w))
+		}
+		neg := "false"
+		if z.Sign() < 0 {
+			neg = "true"
+		}
+		return "(zl " + neg + " [" + strings.Join(parts, ";") + "])"
+	}
 	if z.Sign() < 0 {
 		return "(" + z.String() + ")"
 	}
